@@ -406,6 +406,24 @@ def run_call_order(inst):
         again = list(make([sib, tonic, 1]).ascending())
         if again != sib_first:
             S.problem("%s(%r).ascending() after %s was asked for its descending form first" % (sib, tonic, label), sib_first, again)
+    # from further cold starts: the natural minor scales on every note of the scale are asked first (its relative minor
+    # among them); then the same with the major scales; then with both
+    for warm in (("NaturalMinor",), ("Major",), ("Major", "NaturalMinor")):
+        _cold()
+        for cls in warm:
+            for n in a1[:-1]:
+                try:
+                    sc0 = make([cls, n, 1])
+                    sc0.ascending()
+                    sc0.descending()
+                except Exception:                              # noqa -- tonic not valid for that class
+                    pass
+        late = make(inst)
+        a5, d5 = list(late.ascending()), list(late.descending())
+        S.trans(16 * len(warm) + 2)
+        if a5 != a1 or d5 != d1:
+            S.problem(label + " after the %s scales on each of its notes were asked in a cold process" % " and ".join(warm), [a1, d1], [a5, d5])
+            break
     S.outcome((inst[0], tuple(d1) == tuple(reversed(a1))))
     S.count("call_orders_checked")
 
